@@ -261,6 +261,18 @@ impl Display for Expr {
     fn fmt(&self, fmt: &mut Formatter) -> fmt::Result {
         use std::fmt::Write;
 
+        // the text is used as the key of the per-row value cache, so different expressions
+        // (other operator, other grouping, other function arguments) must give different texts
+        fn write_operand(fmt: &mut Formatter, operand: &Expr) -> fmt::Result {
+            if operand.arithmetic_op.is_some() {
+                fmt.write_char('(')?;
+                fmt.write_str(&operand.to_string())?;
+                fmt.write_char(')')
+            } else {
+                fmt.write_str(&operand.to_string())
+            }
+        }
+
         if self.minus {
             fmt.write_char('-')?;
         }
@@ -271,9 +283,15 @@ impl Display for Expr {
             if let Some(ref left) = self.left {
                 fmt.write_str(&left.to_string())?;
             }
+            if let Some(ref args) = self.args {
+                for arg in args {
+                    fmt.write_str(", ")?;
+                    fmt.write_str(&arg.to_string())?;
+                }
+            }
             fmt.write_char(')')?;
         } else if let Some(ref left) = self.left {
-            fmt.write_str(&left.to_string())?;
+            write_operand(fmt, left)?;
         }
 
         if let Some(ref field) = self.field {
@@ -284,8 +302,18 @@ impl Display for Expr {
             fmt.write_str(val)?;
         }
 
+        if let Some(ref arithmetic_op) = self.arithmetic_op {
+            fmt.write_str(match arithmetic_op {
+                ArithmeticOp::Add => " + ",
+                ArithmeticOp::Subtract => " - ",
+                ArithmeticOp::Multiply => " * ",
+                ArithmeticOp::Divide => " / ",
+                ArithmeticOp::Modulo => " % ",
+            })?;
+        }
+
         if let Some(ref right) = self.right {
-            fmt.write_str(&right.to_string())?;
+            write_operand(fmt, right)?;
         }
 
         Ok(())
